@@ -501,6 +501,20 @@ void handle_atomic_runq_contract(void)
 	realise(&a);
 }
 
+/* contract stub of fibre_run (enforced by h_run): used only by the harness of handle_atomic_runq, so that a drain loop that
+ * goes through fibre_run (the mutual recursion of defect F1) is checked against fibre_run's contract instead of being unfolded */
+void fibre_run_contract(fibre_t *f)
+{
+	struct S a;
+	bool ok = absS(&a);
+	uint8_t x = idx_of_fibre(f);
+	VASSERT(ok && x != NONE, "C01 fibre_run is called with the scheduler's queues well formed and a valid fibre (callee precondition)");
+	if (!ok || x == NONE)
+		VASSUME(0);
+	s_run(&a, x);
+	realise(&a);
+}
+
 /* ------------------------------------------------------------------------------------ raw snapshot (frame checks) */
 struct raw {
 	list_node_t *rh, *rt, *th, *tt, *next[NF];
